@@ -211,8 +211,22 @@ def swallowing(h: ast.ExceptHandler) -> bool:
             continue
         if isinstance(st, ast.Expr) and isinstance(st.value, ast.Constant):
             continue
+        if isinstance(st, ast.Expr) and _plain_log_call(st.value):
+            continue  # a diagnostic through the logging module (which never lets formatting errors out) with plain arguments
         return False
     return True
+
+
+def _plain_log_call(e: ast.expr) -> bool:
+    """`logging.getLogger(__name__).debug("...", name, 3)` / `_LOG.warning("...")`: a logging method called on a logger
+    expression with constant / plain-name arguments only (no attribute access or call on a user object, which could
+    itself raise inside the handler)"""
+    if not (isinstance(e, ast.Call) and isinstance(e.func, ast.Attribute) and e.func.attr in ("debug", "info", "warning", "error", "exception", "critical")):
+        return False
+    recv = e.func.value
+    ok_recv = (isinstance(recv, ast.Name) and recv.id.lower().strip("_") in ("log", "logger", "logging")) or (isinstance(recv, ast.Call) and ast.unparse(recv.func) in ("logging.getLogger", "getLogger") and all(isinstance(a, (ast.Constant, ast.Name)) for a in recv.args))
+    plain = all(isinstance(a, (ast.Constant, ast.Name)) for a in e.args) and all(isinstance(k.value, (ast.Constant, ast.Name)) for k in e.keywords)
+    return ok_recv and plain
 
 
 def is_transfer_wrapper(prog: Program, fi: FuncInfo, cat: str) -> bool:
